@@ -5,6 +5,9 @@ import (
 	"errors"
 	"fmt"
 	"strings"
+	"sync"
+	"sync/atomic"
+	"time"
 
 	leanhelix "github.com/orbs-network/lean-helix-go"
 	"github.com/orbs-network/lean-helix-go/services/interfaces"
@@ -12,11 +15,18 @@ import (
 	"github.com/orbs-network/lean-helix-go/services/storage"
 	"github.com/orbs-network/lean-helix-go/spec/types/go/primitives"
 	"github.com/orbs-network/lean-helix-go/state"
+	"github.com/orbs-network/scribe/log"
 )
 
 // RealNode drives one real WorkerLoop (filter + term + storage + factory) synchronously through
 // the verif hooks and records, per event, the SPI answers given and everything the node did.
 type RealNode struct {
+	mu     sync.Mutex
+	Main   *leanhelix.MainLoop // non-nil: the node is driven through the public API of a running MainLoop (two goroutines)
+	Cancel context.CancelFunc
+	barrierSeen int64
+	Down   bool
+	runCtx context.Context
 	Idx    int
 	Id     []byte
 	W      *World
@@ -105,21 +115,21 @@ func (u *recBlockUtils) judge(ctx context.Context, call string, did string, view
 
 func (u *recBlockUtils) RequestNewBlockProposal(ctx context.Context, blockHeight primitives.BlockHeight, memberId primitives.MemberId, prevBlock interfaces.Block) (interfaces.Block, primitives.BlockHash) {
 	n := u.n
-	n.outs = append(n.outs, fmt.Sprintf("req:%d", uint64(blockHeight)))
+	n.addOut(fmt.Sprintf("req:%d", uint64(blockHeight)))
 	viewAtCall := uint64(n.St.View())
 	did := u.during(ctx)
 	u.judge(ctx, "RequestNewBlockProposal", did, viewAtCall)
 	n.reqCancelled = ctx.Err() != nil
 	n.nextBlock++
 	b := &FakeBlock{H: uint64(blockHeight), Id: uint64(n.Idx+1)*1000000 + n.nextBlock}
-	n.spi = append(n.spi, fmt.Sprintf("prop(%s;%s)", n.enc.block(b), did))
+	n.addSpi(fmt.Sprintf("prop(%s;%s)", n.enc.block(b), did))
 	n.Proposed[b.Id] = true
 	return b, blockHash(b)
 }
 
 func (u *recBlockUtils) ValidateBlockProposal(ctx context.Context, blockHeight primitives.BlockHeight, memberId primitives.MemberId, block interfaces.Block, blockHash_ primitives.BlockHash, prevBlock interfaces.Block) error {
 	n := u.n
-	n.outs = append(n.outs, fmt.Sprintf("val:%d:%s:%s", uint64(blockHeight), n.enc.block(block), hexid(blockHash_)))
+	n.addOut(fmt.Sprintf("val:%d:%s:%s", uint64(blockHeight), n.enc.block(block), hexid(blockHash_)))
 	did := u.during(ctx)
 	ok := false
 	fb, isFake := block.(*FakeBlock)
@@ -129,7 +139,7 @@ func (u *recBlockUtils) ValidateBlockProposal(ctx context.Context, blockHeight p
 			ok = n.Verdict(fb)
 		}
 	}
-	n.spi = append(n.spi, fmt.Sprintf("verd(%s;%s)", b01(ok), did))
+	n.addSpi(fmt.Sprintf("verd(%s;%s)", b01(ok), did))
 	if ok {
 		n.Approved[fb.Id] = true
 	}
@@ -191,7 +201,7 @@ func (m *recMembership) RequestOrderedCommittee(ctx context.Context, blockHeight
 	for i, c := range ms {
 		xs[i] = fmt.Sprintf("M(%s;%d)", hexid(c.Id), uint64(c.Weight))
 	}
-	m.n.spi = append(m.n.spi, "cmt(["+strings.Join(xs, ",")+"])")
+	m.n.addSpi("cmt(["+strings.Join(xs, ",")+"])")
 	return ms, nil
 }
 func (m *recMembership) RequestCommitteeForBlockProof(ctx context.Context, blockHeight primitives.BlockHeight, prevBlockReferenceTime primitives.TimestampSeconds) ([]interfaces.CommitteeMember, error) {
@@ -208,7 +218,7 @@ func (c *recComm) SendConsensusMessage(ctx context.Context, recipients []primiti
 	s := &Sent{From: c.n.Id, To: to, Raw: message}
 	c.n.Sent = append(c.n.Sent, s)
 	c.n.newSent = append(c.n.newSent, s)
-	c.n.outs = append(c.n.outs, fmt.Sprintf("send:%s:%s", c.n.enc.ids(to), c.n.enc.msg(message)))
+	c.n.addOut(fmt.Sprintf("send:%s:%s", c.n.enc.ids(to), c.n.enc.msg(message)))
 	return nil
 }
 
@@ -219,12 +229,36 @@ type recElection struct {
 
 func (e *recElection) RegisterOnElection(blockHeight primitives.BlockHeight, view primitives.View, cb func(blockHeight primitives.BlockHeight, view primitives.View, onElectionCB interfaces.OnElectionCallback)) {
 	e.FakeElection.RegisterOnElection(blockHeight, view, cb)
-	e.n.outs = append(e.n.outs, fmt.Sprintf("reg:%d:%d", uint64(blockHeight), uint64(view)))
+	e.n.addOut(fmt.Sprintf("reg:%d:%d", uint64(blockHeight), uint64(view)))
 }
 func (e *recElection) Stop() {
 	e.FakeElection.Stop()
-	e.n.outs = append(e.n.outs, "stop")
+	e.n.addOut("stop")
 }
+
+func (n *RealNode) addOut(s string) {
+	n.mu.Lock()
+	n.outs = append(n.outs, s)
+	n.mu.Unlock()
+}
+func (n *RealNode) addSpi(s string) {
+	n.mu.Lock()
+	n.spi = append(n.spi, s)
+	n.mu.Unlock()
+}
+
+// countingLogger lets the harness see the worker goroutine process a barrier message (a message
+// carrying the node's own id, which the height filter drops with a debug line)
+type countingLogger struct{ n *RealNode }
+
+func (l *countingLogger) Debug(format string, args ...interface{}) {
+	if strings.Contains(format, "IGNORING message I sent") {
+		atomic.AddInt64(&l.n.barrierSeen, 1)
+	}
+}
+func (l *countingLogger) Info(format string, args ...interface{})  {}
+func (l *countingLogger) Error(format string, args ...interface{}) {}
+func (l *countingLogger) ConsensusTrace(format string, fields ...*log.Field) {}
 
 func NewRealNode(w *World, idx int, id []byte, prevProof []byte) *RealNode {
 	n := &RealNode{Idx: idx, Id: id, W: w, PrevProof: prevProof, Approved: map[uint64]bool{}, Proposed: map[uint64]bool{}}
@@ -245,15 +279,15 @@ func NewRealNode(w *World, idx int, id []byte, prevProof []byte) *RealNode {
 	n.St = state.NewState()
 	onCommit := func(ctx context.Context, block interfaces.Block, blockProof []byte) error {
 		fb, _ := block.(*FakeBlock)
-		n.outs = append(n.outs, n.enc.blockProof(block, blockProof))
+		n.addOut(n.enc.blockProof(block, blockProof))
 		n.Commits = append(n.Commits, commitObs{fb, append([]byte{}, blockProof...)})
 		n.CbOrder = append(n.CbOrder, "c")
 		if n.CommitCbFails {
 			n.CommitCbFails = false
-			n.spi = append(n.spi, "ccb(0)")
+			n.addSpi("ccb(0)")
 			return errors.New("consumer failed to commit")
 		}
-		n.spi = append(n.spi, "ccb(1)")
+		n.addSpi("ccb(1)")
 		return nil
 	}
 	onRound := func(ctx context.Context, newHeight primitives.BlockHeight, prevBlock interfaces.Block, canBeFirstLeader bool) {
@@ -261,12 +295,112 @@ func NewRealNode(w *World, idx int, id []byte, prevProof []byte) *RealNode {
 		if prevBlock != nil {
 			ph = uint64(prevBlock.Height())
 		}
-		n.outs = append(n.outs, fmt.Sprintf("round:%d:%s", uint64(newHeight), b01(canBeFirstLeader)))
+		n.addOut(fmt.Sprintf("round:%d:%s", uint64(newHeight), b01(canBeFirstLeader)))
 		n.Rounds = append(n.Rounds, roundObs{uint64(newHeight), canBeFirstLeader, ph})
 		n.CbOrder = append(n.CbOrder, "r")
 	}
 	n.Worker = leanhelix.NewWorkerLoop(n.St, n.Cfg, logger.NewLhLogger(n.Cfg, n.St), n.El, onCommit, onRound)
 	return n
+}
+
+// NewRealMainNode builds the same fakes around a full MainLoop (main loop + worker loop goroutines)
+// and starts it. Every event is injected through the public API (or the election channel) and the
+// harness waits until both loops are idle again before it reads what happened.
+func NewRealMainNode(w *World, idx int, id []byte) *RealNode {
+	n := NewRealNode(w, idx, id, nil)
+	n.Cfg.Logger = &countingLogger{n}
+	onCommit := func(ctx context.Context, block interfaces.Block, blockProof []byte) error {
+		fb, _ := block.(*FakeBlock)
+		n.addOut(n.enc.blockProof(block, blockProof))
+		n.mu.Lock()
+		n.Commits = append(n.Commits, commitObs{fb, append([]byte{}, blockProof...)})
+		n.CbOrder = append(n.CbOrder, "c")
+		n.mu.Unlock()
+		if n.CommitCbFails {
+			n.CommitCbFails = false
+			n.addSpi("ccb(0)")
+			return errors.New("consumer failed to commit")
+		}
+		n.addSpi("ccb(1)")
+		return nil
+	}
+	onRound := func(ctx context.Context, newHeight primitives.BlockHeight, prevBlock interfaces.Block, canBeFirstLeader bool) {
+		var ph uint64
+		if prevBlock != nil {
+			ph = uint64(prevBlock.Height())
+		}
+		n.addOut(fmt.Sprintf("round:%d:%s", uint64(newHeight), b01(canBeFirstLeader)))
+		n.mu.Lock()
+		n.Rounds = append(n.Rounds, roundObs{uint64(newHeight), canBeFirstLeader, ph})
+		n.CbOrder = append(n.CbOrder, "r")
+		n.mu.Unlock()
+	}
+	ml := leanhelix.NewLeanHelix(n.Cfg, onCommit, onRound)
+	ctx, cancel := context.WithCancel(context.Background())
+	ml.Run(ctx)
+	n.Main, n.Cancel = ml, cancel
+	n.Worker = ml.VerifWorker()
+	n.St = ml.State()
+	n.runCtx = ctx
+	return n
+}
+
+// quiesce waits until both loops are idle: a barrier message (own sender id, dropped by the height
+// filter) is processed by the worker goroutine strictly after everything it took before; two
+// barriers with empty queues in between mean nothing is in progress any more.
+func (n *RealNode) quiesce() {
+	barrier := mkBareRaw(1, n.W.Inst, uint64(n.St.Height()), 0, n.Id)
+	pass := func() bool {
+		want := atomic.LoadInt64(&n.barrierSeen) + 1
+		tctx, c := context.WithTimeout(n.runCtx, 2*time.Second)
+		n.Main.HandleConsensusMessage(tctx, barrier)
+		c()
+		deadline := time.Now().Add(2 * time.Second)
+		for atomic.LoadInt64(&n.barrierSeen) < want {
+			if time.Now().After(deadline) || n.runCtx.Err() != nil {
+				return false
+			}
+			time.Sleep(50 * time.Microsecond)
+		}
+		return true
+	}
+	for i := 0; i < 50; i++ {
+		if !pass() {
+			return
+		}
+		a, b, c := n.Worker.VerifQueued()
+		if a+b+c == 0 {
+			if pass() {
+				a, b, c = n.Worker.VerifQueued()
+				if a+b+c == 0 {
+					return
+				}
+			}
+		}
+	}
+}
+
+func (n *RealNode) mainSnapshot() string {
+	n.mu.Lock()
+	defer n.mu.Unlock()
+	snap := n.Main.State().Contexts.VerifSnapshot()
+	return fmt.Sprintf("%s shut=%s down=%s", n.snapshot(), b01(snap.Shutdown), b01(n.Down))
+}
+
+func (n *RealNode) runMain(f func()) (spi string, out string) {
+	n.mu.Lock()
+	n.outs, n.spi, n.newSent, n.Stored = nil, nil, nil, nil
+	n.mu.Unlock()
+	f()
+	if !n.Down {
+		n.quiesce()
+	} else {
+		time.Sleep(5 * time.Millisecond)
+	}
+	n.mu.Lock()
+	spi = strings.Join(n.spi, " ")
+	n.mu.Unlock()
+	return spi, n.mainSnapshot()
 }
 
 // run executes one event on the real node, catching panics, and returns the op-line suffix (SPI
@@ -277,7 +411,7 @@ func (n *RealNode) run(f func()) (spi string, out string) {
 		defer func() {
 			if r := recover(); r != nil {
 				n.Panicked = fmt.Sprint(r)
-				n.outs = append(n.outs, "panic")
+				n.addOut("panic")
 			}
 		}()
 		f()
@@ -311,10 +445,35 @@ func (n *RealNode) snapshot() string {
 }
 
 func (n *RealNode) Deliver(raw *interfaces.ConsensusRawMessage) (string, string) {
+	if n.Main != nil {
+		return n.runMain(func() {
+			tctx, c := context.WithTimeout(n.runCtx, 2*time.Second)
+			defer c()
+			n.Main.HandleConsensusMessage(tctx, raw)
+		})
+	}
 	return n.run(func() { n.Worker.VerifDeliver(raw) })
 }
 
 func (n *RealNode) Election(h, v uint64) (string, string) {
+	if n.Main != nil {
+		return n.runMain(func() {
+			fe := n.El.FakeElection
+			trig := &interfaces.ElectionTrigger{
+				Hv: state.NewHeightView(primitives.BlockHeight(h), primitives.View(v)),
+				MoveToNextLeader: func() {
+					if fe.Armed {
+						fe.Fire(h, v)
+					}
+				},
+			}
+			select {
+			case fe.ch <- trig:
+			case <-time.After(2 * time.Second):
+			case <-n.runCtx.Done():
+			}
+		})
+	}
 	return n.run(func() {
 		fe := n.El.FakeElection
 		trig := &interfaces.ElectionTrigger{
@@ -330,6 +489,17 @@ func (n *RealNode) Election(h, v uint64) (string, string) {
 }
 
 func (n *RealNode) Update(b *FakeBlock, proof []byte) (string, string) {
+	if n.Main != nil {
+		return n.runMain(func() {
+			tctx, c := context.WithTimeout(n.runCtx, 2*time.Second)
+			defer c()
+			if b == nil {
+				n.Main.UpdateState(tctx, nil, proof)
+			} else {
+				n.Main.UpdateState(tctx, b, proof)
+			}
+		})
+	}
 	return n.run(func() {
 		if b == nil {
 			n.Worker.VerifUpdateState(nil, proof)
@@ -337,4 +507,20 @@ func (n *RealNode) Update(b *FakeBlock, proof []byte) (string, string) {
 			n.Worker.VerifUpdateState(b, proof)
 		}
 	})
+}
+
+
+// Shutdown cancels the context given to Run and waits for both loops.
+func (n *RealNode) Shutdown() (string, string, time.Duration) {
+	var took time.Duration
+	spi, out := n.runMain(func() {
+		n.Down = true
+		t0 := time.Now()
+		n.Cancel()
+		wctx, c := context.WithTimeout(context.Background(), 3*time.Second)
+		n.Main.WaitUntilShutdown(wctx)
+		c()
+		took = time.Since(t0)
+	})
+	return spi, out, took
 }
